@@ -2,6 +2,7 @@ package props
 
 import (
 	"fmt"
+	"os"
 	"path/filepath"
 	"regexp"
 	"time"
@@ -123,6 +124,20 @@ func expiryCatalogue(c *core.Ctx) []expiryCase {
 }
 
 func runC06(c *core.Ctx) {
+	// what time it is does not depend on the environment: half of the workers run with variables set
+	// that tools use to pin or shift "now" (reproducible-build epoch, time zone, faketime-style settings)
+	switch c.Shard % 4 {
+	case 1:
+		os.Setenv("SOURCE_DATE_EPOCH", "1500000000")
+		os.Setenv("TZ", "Pacific/Kiritimati")
+	case 3:
+		os.Setenv("SOURCE_DATE_EPOCH", "0")
+		os.Setenv("FAKETIME", "2001-01-01 00:00:00")
+		os.Setenv("TZ", "Etc/GMT+12")
+	}
+	if c.Shard%2 == 1 {
+		c.Obs("workers_with_time_related_environment", 1)
+	}
 	pool := Pool(c)
 	fast := gen.Fast(pool)
 	cases := expiryCatalogue(c)
@@ -325,7 +340,7 @@ func init() {
 	core.Register(&core.Property{
 		ID:    "C06",
 		Level: "exploration",
-		Rule: "catalogue of expiry strings: now -/+ {2s,5s,1min,1h,1d,1y,100y}, 'valid when built, verified 2.2 s after it expired', years 0001/1970/2999/9999, 24 malformed forms (a marker / a partial year that the verifier's parameters would complete to a future date, empty, date only, offsets, separators, impossible dates, trailing/leading text, other date layouts), arguable forms (leap second, lower case, fraction, one-digit fields: run but not judged); thorough: + 2000 random strings and every single-character mutation of a valid timestamp; x 2 wrappers x 2 entry points x {layout object as signed in memory, layout loaded from its file} x verifier time zones {UTC, America/Los_Angeles, Asia/Tokyo, Pacific/Kiritimati} (by worker) x {flat chain with inspection, valid root over an expired/undated sublayout, expired/undated root over a valid sublayout with its own inspection, layout without steps and inspections, a delegated step delivered as sublayouts by two functionaries of which the second copy is expired/undated (8 verifications each), a threshold-1 step met by a plain link while another authorized functionary's sublayout is expired/undated}. Oracle: call bracket [t0,t1] sampled around the call (no clock of our own), marker files, trace automaton. " +
+		Rule: "catalogue of expiry strings: now -/+ {2s,5s,1min,1h,1d,1y,100y}, 'valid when built, verified 2.2 s after it expired', years 0001/1970/2999/9999, 24 malformed forms (a marker / a partial year that the verifier's parameters would complete to a future date, empty, date only, offsets, separators, impossible dates, trailing/leading text, other date layouts), arguable forms (leap second, lower case, fraction, one-digit fields: run but not judged); thorough: + 2000 random strings and every single-character mutation of a valid timestamp; x 2 wrappers x 2 entry points x {layout object as signed in memory, layout loaded from its file} x verifier time zones {UTC, America/Los_Angeles, Asia/Tokyo, Pacific/Kiritimati} (by worker) x {flat chain with inspection, valid root over an expired/undated sublayout, expired/undated root over a valid sublayout with its own inspection, layout without steps and inspections, a delegated step delivered as sublayouts by two functionaries of which the second copy is expired/undated (8 verifications each), a threshold-1 step met by a plain link while another authorized functionary's sublayout is expired/undated}. Oracle: call bracket [t0,t1] sampled around the call (no clock of our own), marker files, trace automaton.  Half of the workers run with SOURCE_DATE_EPOCH (0 / 1500000000), TZ (UTC+14 / UTC-12) and FAKETIME set in their environment." +
 			"non-trivial = the layout signature phase passed; distinct = (class, label, wrapper, entry point, nesting)",
 		Assumptions: []string{"an expiry inside the call bracket [t0,t1] is inconclusive", "strings of arguable well-formedness (leap second, lower-case t/z, fractional seconds, one-digit fields) are not judged", "a rejected control with a future expiry is inconclusive (observation floor on accepted controls)"},
 		Workers:     func(string) int { return 16 },
